@@ -30,6 +30,7 @@ RULE = (
     "built in the same process in which the carrier's and the rewrites' names have the other kind (composites as inputs, inputs as objects). Oracle = create_engine raises AND an Engine "
     "whose cook() failed cannot answer a request. Distinct = SHA-1 of the mutated SDL; non-trivial = the site is inside an extension or "
     "behind a list/non-null wrapper."
+    " Also: arguments of non-input / undefined type on a field of an interface that no object implements."
 )
 ASSUMPTIONS = ["each rewrite certainly violates the named rule (hand-derived from the statement's list)"]
 
@@ -90,6 +91,15 @@ def mutants(M, pieces):
                         m[i]["def"]["fields"][fn]["args"][an]["type"] = retarget(ad["type"], n)
                         m[i]["def"]["fields"][fn]["args"][an].pop("default", None)
                         yield "non_input_type", "argument_%s_%s" % (kind, where), where == "ext" or awrapped, m, {}
+
+    # an interface nobody implements (so that no implementer's own check can stand in for it) whose field takes a non-input
+    # type / an undefined type as argument, bare and wrapped
+    for kind, names in list(non_input.items()) + [("undefined", ["ZzUndefined"])]:
+        for n in names:
+            for wrap in ("%s", "[%s!]"):
+                m = mk()
+                m.append({"p": "type", "name": "ZzLonely", "def": {"kind": "INTERFACE", "fields": {"a": {"type": "Int", "args": {"x": {"type": wrap % n}}}}}})
+                yield ("non_input_type" if kind != "undefined" else "undefined_type"), "argument_%s_unimplemented_interface" % kind, wrap != "%s", m, {}
 
     # ---- interfaces not honoured
     for o in objs:
